@@ -268,6 +268,70 @@ fn show_script(script: &[Step]) -> String {
     s
 }
 
+/// The same script through the same reader with another *target type* (`File` or the streaming `Parser` instead of
+/// `DecodedBytes`): a transmission becomes a parsed value or a parse error, every other result - decode errors, source
+/// errors with their counts, would-block, the end of input - must be the one the `DecodedBytes` run gave, call by call.
+fn other_targets<K: BufKind>(fe: Fe, script: &[Step], got: &[(usize, Ev)]) -> Result<(), String> {
+    use sml_rs::parser::complete::File;
+    use sml_rs::parser::streaming::Parser;
+    use sml_rs::ReadParsedError;
+    fn conv(e: ReadParsedError<std::io::Error>) -> Ev {
+        match e {
+            ReadParsedError::ParseErr(_) => Ev::Msg(Vec::new()),
+            ReadParsedError::DecodeErr(e) => Ev::Err(e),
+            ReadParsedError::IoErr(e, n) => match e.kind() {
+                std::io::ErrorKind::UnexpectedEof => Ev::IoEof(n),
+                std::io::ErrorKind::WouldBlock => Ev::IoWouldBlock(n),
+                k => Ev::IoOther(format!("{:?}", k), n),
+            },
+        }
+    }
+    let shape = |e: &Ev| match e {
+        Ev::Msg(_) => Ev::Msg(Vec::new()),
+        other => other.clone(),
+    };
+    for target in 0..2u8 {
+        let (src, _st) = drive::ScriptReader::new(script.to_vec());
+        let mut reader = K::builder().from_reader(src);
+        for (k, (_, want)) in got.iter().enumerate() {
+            let ev = match (target, fe.poll_next) {
+                (0, true) => match reader.next::<File>() {
+                    None => Ev::End,
+                    Some(Ok(_)) => Ev::Msg(Vec::new()),
+                    Some(Err(e)) => conv(e),
+                },
+                (0, false) => match reader.read::<File>() {
+                    Ok(_) => Ev::Msg(Vec::new()),
+                    Err(e) => conv(e),
+                },
+                (_, true) => match reader.next::<Parser>() {
+                    None => Ev::End,
+                    Some(Ok(_)) => Ev::Msg(Vec::new()),
+                    Some(Err(e)) => match e {
+                        ReadDecodedError::DecodeErr(e) => Ev::Err(e),
+                        ReadDecodedError::IoErr(e, n) => conv(ReadParsedError::IoErr(e, n)),
+                    },
+                },
+                (_, false) => match reader.read::<Parser>() {
+                    Ok(_) => Ev::Msg(Vec::new()),
+                    Err(ReadDecodedError::DecodeErr(e)) => Ev::Err(e),
+                    Err(ReadDecodedError::IoErr(e, n)) => conv(ReadParsedError::IoErr(e, n)),
+                },
+            };
+            if ev != shape(want) {
+                return Err(format!(
+                    "result {} through the target type {} is {}, through DecodedBytes it is {}",
+                    k + 1,
+                    if target == 0 { "File" } else { "Parser" },
+                    ev.short(),
+                    want.short()
+                ));
+            }
+        }
+    }
+    Ok(())
+}
+
 pub fn eval_input(i: &Input, obs: &mut Obs) -> Result<(), Fail> {
     let fe = i.fe;
     let who = fe_name(fe);
@@ -276,6 +340,15 @@ pub fn eval_input(i: &Input, obs: &mut Obs) -> Result<(), Fail> {
     let cap_fail = |m: String| Fail::new("reader-step-cap", format!("{who}: {m}\nscript = {}", show_script(&script)));
     let got = run_cfg(fe, &script).map_err(cap_fail)?;
     let ctx = |msg: String| format!("{who}: {msg}\nresults = {}\nscript  = {}", drive::show_pos(&got), show_script(&script));
+    if fe.api == 0 {
+        // the counts and the end of input must not depend on what the caller asks the reader to produce
+        let r = match fe.cap {
+            None => other_targets::<VecK>(fe, &script, &got),
+            Some(n) => with_cap!(n, K => other_targets::<K>(fe, &script, &got)),
+        };
+        ensure!(r.is_ok(), "target-type-changes-results", "{}", ctx(r.unwrap_err()));
+        obs.class("other-target-types:compared");
+    }
 
     // ---- (1) soft faults are transparent -------------------------------------------------
     let n_wb_script = script.iter().filter(|s| matches!(s, Step::WouldBlock) || (eh && matches!(s, Step::Interrupted))).count();
